@@ -212,7 +212,7 @@ def run(ctx):
     ]
     ctx.cov["proved"] = ["C07_taxon_zero", "C07_taxon", "C07_zeno_sum", "C07_zeno_closed", "C07_linear", "C07_program", "C07_ranking",
                          "C07_history", "C07_knowledge_current", "C07_knowledge_as_set", "C07_recommender", "C07_program_taxa",
-                         "C07_shared_mutation", "C07_shared_stale_characterised", "C07_shared_snapshot_cost",
+                         "C07_shared_mutation", "C07_shared_stale_characterised", "C07_shared_snapshot_cost", "C07_shared_snapshots",
                          "C07_shared_disciplined_sound", "C07_shared_run_pipeline_sound", "C07_shared_direct_update_stale"]
     ctx.cov["exercised_only"] = ["taxon_cost before the first set_imparted_knowledge (AttributeError: the attribute does not exist yet): checked once per run, outside the machines",
                                  "a direct update_filter followed by assess without run_pipeline returns stale costs (documented gap, §11.6): modelled exactly "
